@@ -17,7 +17,10 @@ E2 == { [k |-> "char",  src |-> <<0, 65>>, dst |-> <<0, 65>>],
         [k |-> "range", lo |-> <<0, 32>>, hi |-> <<0, 34>>, dst |-> <<216, 61, 222, 0>>],
         [k |-> "range", lo |-> <<48, 0>>, hi |-> <<49, 44>>, dst |-> <<78, 0>>],
         [k |-> "arr",   lo |-> <<0, 255>>, hi |-> <<1, 1>>, dsts |-> <<<<0, 65>>, <<0, 66, 0, 67>>, <<216, 61, 222, 0>>>>],
-        [k |-> "arr",   lo |-> <<0, 48>>, hi |-> <<0, 49>>, dsts |-> <<<<0, 97>>, <<0, 98>>>>] }
+        [k |-> "arr",   lo |-> <<0, 48>>, hi |-> <<0, 49>>, dsts |-> <<<<0, 97>>, <<0, 98>>>>],
+        \* an empty destination string is legal (a glyph that stands for no text); what follows it must not shift
+        [k |-> "char",  src |-> <<0, 2>>, dst |-> <<>>],
+        [k |-> "arr",   lo |-> <<0, 4>>, hi |-> <<0, 6>>, dsts |-> <<<<0, 65>>, <<>>, <<0, 102, 0, 105>>>>] }
 E1 == { [k |-> "char",  src |-> <<65>>, dst |-> <<0, 65>>],
         [k |-> "range", lo |-> <<32>>, hi |-> <<126>>, dst |-> <<0, 32>>],
         [k |-> "range", lo |-> <<250>>, hi |-> <<255>>, dst |-> <<0, 250>>],
